@@ -98,7 +98,10 @@ def real_runs(ctx, viol, stats):
         if rec["exception"]:
             viol.append({"signature": "NaiveElimination:step-raised", "message": rec["exception"], "replay": {"spec": rec["spec"]}})
     # DecoupledGP (real model list)
-    for _ in range(1 if ctx.quick else 4):
+    # the last configurations are deterministic: per-objective costs whose cheapest entry is not 1 (as a list and as a
+    # float array the caller keeps), with budgets that are reached mid-run
+    directed = [([0.5, 1.0], 2.5, 1), (np.array([2.0, 3.0]), 9.0, 2)] + ([] if ctx.quick else [(np.array([0.25, 0.75]), 2.0, 1), ([3.0, 1.5], 10.0, 20)])
+    for run_i in range((1 if ctx.quick else 4) + len(directed)):
         K = 6
         X = [[(k % 3) / 2.0, (k // 3) / 1.0] for k in range(K)]
         Y = [[rng.randint(-8, 8) / 4.0, rng.randint(-8, 8) / 4.0] for _ in range(K)]
@@ -106,9 +109,14 @@ def real_runs(ctx, viol, stats):
         costs = [1.0, rng.choice([1.0, 2.0])]
         budget = rng.choice([3.0, 5.0])
         batch = rng.choice([1, 2, 20])
+        if run_i >= (1 if ctx.quick else 4):
+            given, budget, batch = directed[run_i - (1 if ctx.quick else 4)]
+            costs = [float(c) for c in given]           # the harness' own copy of what the caller asked for
+        else:
+            given = costs
         spec = {"X": X, "Y": Y, "costs": costs, "budget": budget, "batch": batch}
         try:
-            a = DecoupledGP(name, ComponentwiseOrder(2), 0.01, budget, costs, batch_size=batch)
+            a = DecoupledGP(name, ComponentwiseOrder(2), 0.01, budget, given, batch_size=batch)
             a.problem = algrun.Recorder(a.problem)
             for t in range(12):
                 pre = (int(a.round), int(a.sample_count), float(a.total_cost))
